@@ -304,13 +304,18 @@ func (ir *ifdReader) fastRead(n int) (buf []byte, err error) {
 		ir.po += uint32(n)
 		return
 	}
-	if n, err = ir.reader.Read(ir.buffer.buf[:n]); err != nil {
+	if n < 0 || n > bufferLength {
+		return nil, imagetype.ErrDataLength
+	}
+	want := n
+	n, err = io.ReadFull(ir.reader, ir.buffer.buf[:want])
+	ir.po += uint32(n)
+	if err != nil {
 		if ir.logLevelError() {
 			ir.logError(err).Msg("Read error")
 		}
-		return
+		return nil, err
 	}
-	ir.po += uint32(n)
 	return ir.buffer.buf[:n], err
 }
 
